@@ -20,6 +20,44 @@ pub enum Base {
     Sub(String),
     /// the parent of the tree root is the base (the tree is its child `t`)
     Parent,
+    /// the tree root is the current working directory and the base is `.` (false) or `./` (true).
+    /// Changing the working directory is process-wide: such cases are only ever run
+    /// sequentially (the `extra` stage and replays), never by the shard threads
+    Cwd(bool),
+}
+
+/// Makes the tree root the working directory for a `Base::Cwd` case; restores `/` when dropped
+/// (declare it *after* the `Scratch` so that it is dropped first).
+pub struct CwdGuard;
+
+pub fn enter_cwd(base: &Base, s: &Scratch) -> Option<CwdGuard> {
+    if let Base::Cwd(_) = base {
+        if std::env::set_current_dir(&s.root).is_ok() {
+            return Some(CwdGuard);
+        }
+    }
+    None
+}
+
+impl Drop for CwdGuard {
+    fn drop(&mut self) {
+        let _ = std::env::set_current_dir("/");
+    }
+}
+
+/// deterministic tape bytes for the sequential `Base::Cwd` stage (fixed work, no RNG state)
+pub fn fixed_tape(k: u64, len: usize) -> Vec<u8> {
+    let mut x = 0x9E37_79B9_7F4A_7C15u64 ^ k.wrapping_mul(0xBF58_476D_1CE4_E5B9);
+    (0..len)
+        .map(|_| {
+            x ^= x << 13;
+            x ^= x >> 7;
+            x ^= x << 17;
+            // small values are the simple choices: bias the bytes downwards like proptest's do
+            let b = (x >> 32) as u8;
+            if (x >> 40) & 3 == 0 { b } else { b / 3 }
+        })
+        .collect()
 }
 
 pub fn gen_base(t: &mut Tape, tree: &TreeSpec) -> Base {
@@ -54,6 +92,7 @@ pub fn base_paths(base: &Base, s: &Scratch) -> (PathBuf, PathBuf) {
             let p = root.parent().unwrap().to_path_buf();
             (p.clone(), p)
         },
+        Base::Cwd(slash) => (PathBuf::from(if *slash { "./" } else { "." }), root),
     }
 }
 
